@@ -300,7 +300,9 @@ func oneLoopRun(r *Rng, out *AreaOut, idx int) (string, string, bool, error) {
 					switch p {
 					case "load.after_txn", "send.after_txn":
 						pa = 35
-					case "check.info", "loop.sleep", "load.begin", "send.begin":
+					case "load.begin", "send.begin":
+						pa = 30
+					case "check.info", "loop.sleep":
 						pa = 18
 					}
 					if r.Chance(pa) {
@@ -316,6 +318,10 @@ func oneLoopRun(r *Rng, out *AreaOut, idx int) (string, string, bool, error) {
 							ops = append(ops, appOp{DBI: "yy", Key: pick(r, byteKeyPool[:3]), Val: pick(r, instVals)})
 						} else {
 							ops = append(ops, appOp{DBI: "app", Key: pick(r, byteKeyPool[:8]), Val: pick(r, instVals)})
+						}
+						if (p == "load.begin" || p == "send.begin") && r.Chance(50) {
+							// the same transaction CREATES a DBI (an application adding a table while it writes elsewhere)
+							ops = append(ops, appOp{DBI: fmt.Sprintf("late%d", yi), Key: []byte("k"), Val: pick(r, instVals[:3])})
 						}
 						var oc []string
 						for _, o := range ops {
@@ -339,6 +345,13 @@ func oneLoopRun(r *Rng, out *AreaOut, idx int) (string, string, bool, error) {
 							changed, rel, err = applyAppHeld(env, native, clock, uint64(info.LastTxnID)+1, ops)
 							if err == nil {
 								heldRelease = rel
+								newDBI := false
+								for _, o := range ops {
+									if strings.HasPrefix(o.DBI, "late") {
+										newDBI = true
+									}
+								}
+								hist(out.Hist, fmt.Sprintf("held-open-commit/%s/native=%v/creates-dbi=%v", p, native, newDBI))
 							}
 						} else {
 							changed, err = applyAppFixed(env, native, clock, uint64(info.LastTxnID)+1, ops)
@@ -566,6 +579,11 @@ func oneLoopRun(r *Rng, out *AreaOut, idx int) (string, string, bool, error) {
 				ok = true // empty values: known finding F6, reported under C11
 			} else {
 				ok = has && string(cur) == string(w.Val)
+			}
+			if !ok && w.Del && window == "" {
+				// a deletion the application committed stays in force until a version with a higher timestamp arrives
+				// (outside the known F8 window, which is reported under C03 / C09)
+				out.Oracle = append(out.Oracle, OracleFailure{"C04", "local-deletion-resurrected", fmt.Sprintf("the application deleted %s key %x at yield %d (%s); no newer version arrived, yet the key is back: %x", w.DBI, w.Key, w.Yield, w.Point, cur), in})
 			}
 			if !ok {
 				out.Oracle = append(out.Oracle, OracleFailure{"C03", "write-destroyed" + window, fmt.Sprintf("application write to %s key %x (value %x, delete=%v) at yield %d (%s) was reverted/lost although no newer version arrived; stored now: %x", w.DBI, w.Key, w.Val, w.Del, w.Yield, w.Point, cur), in})
